@@ -61,6 +61,35 @@ class ToyLearner:
         self.acc += context
 
 
+class ToyLearnerF(ToyLearner):
+    """a ToyLearner with a `finish()` hook (coba calls it on the evaluated COPY of a shared learner after its evaluation):
+    'mark'  - finish marks the object; a finished object raises in predict (so a copy made from a finished original fails),
+    'raise' - finish itself raises,
+    'lazy'  - finish releases a resource that only exists once the learner has learned (AttributeError otherwise)"""
+
+    def __init__(self, tag, mult=1, fp=None, fl=None, params_fail=False, info=False, nocopy=False, finish="mark"):
+        super().__init__(tag, mult, fp, fl, params_fail, info, nocopy)
+        self.finish_kind = finish
+        self.finished = False
+
+    def predict(self, context, actions):
+        if self.finished:
+            raise ToyFail("TOYFAIL:lrn%d:finished" % self.tag)
+        return super().predict(context, actions)
+
+    def learn(self, context, action, reward, probability, **kwargs):
+        super().learn(context, action, reward, probability, **kwargs)
+        if self.finish_kind == "lazy":
+            self._resource = ["open"]
+
+    def finish(self):
+        if self.finish_kind == "raise":
+            raise ToyFail("TOYFAIL:lrn%d:finish" % self.tag)
+        if self.finish_kind == "lazy":
+            self._resource.append("closed")
+        self.finished = True
+
+
 class ToyEval:
     """mode 0: ignores CobaContext.learning_info; mode 1: clears it when the evaluation starts and moves it into every row
     (what coba's evaluators do); mode 2: moves it into the rows without clearing first — such an evaluator is NOT
